@@ -3,41 +3,49 @@
      encode v e t x : res (list Z)   serialize_cdr{1,2}_{be,le} on a DynamicData x of DynamicType t
      decode t bytes : res val        deserialize_top_level_type
      wf_ty t        the type only uses kinds the code implements (no todo!() kind), ids distinct
-     wt t x         x is a value of t as the code stores it (BTreeMap in id order, ranges, lengths < 2^32)
+     wt t x         x is a value of t as the code stores it (BTreeMap in id order, ranges, lengths < 2^32;
+                    a char8 is one octet 0..255: the serializer truncates a Rust char above U+00FF)
      stage1 t       primitives, string, wstring, enum, sequence, array, FINAL structs, no optional member
      stage2 t       stage1 + APPENDABLE structs + optional members      (stage 3 = mutable structs, unions)
-     known_class v t x   0, or the recorded defect class of the case (3 optional member in XCDR1,
-                         4 mutable struct / union somewhere in the type; the former classes 1 char8 >= 0x80
-                         and 2 float128 in XCDR1 were repaired in /repo: c6ffb24, 0b5427b)
-   A char8 value is one octet (0..255, `wt`): the repaired serializer truncates a Rust char above U+00FF. *)
+     size_limit v t 2^32-1 (the u32 length fields / DHEADER), or 65535 for XCDR1 types with an optional
+                    member (short parameter header; the long one, rule (25), is a TODO in the code)
+     sup v t        the type is serializable in version v: in XCDR1 no optional member id >= 2^14 (it would
+                    need the long parameter header, rule (25), a TODO in the code: serialize returns InvalidId)
+     known_class v t x   0, or the recorded defect class of the case: 4 mutable struct / union somewhere in
+                    the type, 5 XCDR1 optional member whose value can be empty (a present empty value has
+                    parameter length 0 and is read back as absent).
+                    The former classes 1 (char8 >= 0x80), 2 (float128 in XCDR1), 3 (XCDR1 optional member
+                    rewound), 6 (XCDR1 parameter id overflow) and the collection part of 5 (zero-size elements
+                    rejected by the length guard) were repaired in /repo: c6ffb24, 0b5427b, addc370, 2cf9289,
+                    8422ab4. *)
 From DustDDS Require Import Base.Machine Xcdr.XcdrBytes Xcdr.XcdrModel Xcdr.XcdrProps Xcdr.XcdrProofs.
 Open Scope Z_scope.
 
 (* S1: both XCDR versions, both byte orders; no recorded class is left in S1 *)
 Theorem C09_roundtrip_S1 : forall (v : ver) (e : endian) (t : ty) (x : val),
   is_aggr t = true -> wf_ty t = true -> stage1 t = true -> wt t x = true ->
-  exists bytes, encode v e t x = Ok bytes /\ decode t bytes = Ok x.
+  exists bytes, encode v e t x = Ok bytes /\ (blen bytes <= u32_max -> decode t bytes = Ok x).
 Proof. exact roundtrip_S1. Qed.
 
 Theorem C09_S1_classes : forall (v : ver) (t : ty) (x : val), stage1 t = true ->
-  known_class v t x = 0%N.
+  known_class v t x = 0%N /\ sup v t = true.
 Proof. exact stage1_known. Qed.
 
-(* S2: appendable structures (DHEADER in XCDR2), optional members; the only class left in S2 is
-   3 (XCDR1 with an optional member somewhere) *)
+(* S2: appendable structures (DHEADER in XCDR2, which delimits the object for the reader),
+   optional members (XCDR2 presence flag, XCDR1 parameter read in place) *)
 Theorem C09_roundtrip_S2 : forall (v : ver) (e : endian) (t : ty) (x : val),
-  is_aggr t = true -> wf_ty t = true -> stage2 t = true -> wt t x = true ->
+  is_aggr t = true -> wf_ty t = true -> stage2 t = true -> sup v t = true -> wt t x = true ->
   known_class v t x = 0%N ->
-  exists bytes, encode v e t x = Ok bytes /\ decode t bytes = Ok x.
+  exists bytes, encode v e t x = Ok bytes /\ (blen bytes <= size_limit v t -> decode t bytes = Ok x).
 Proof. exact roundtrip_S2. Qed.
 
 (* The full statement (every supported type incl. S3: mutable structures and unions).  It is
    proved outside the recorded classes only; class 4 is ALL of stage 3, so for S3 this theorem
    says nothing yet: partial. *)
 Theorem C09_roundtrip_all_types_partial : forall (v : ver) (e : endian) (t : ty) (x : val),
-  is_aggr t = true -> wf_ty t = true -> wt t x = true ->
+  is_aggr t = true -> wf_ty t = true -> sup v t = true -> wt t x = true ->
   known_class v t x = 0%N ->
-  exists bytes, encode v e t x = Ok bytes /\ decode t bytes = Ok x.
+  exists bytes, encode v e t x = Ok bytes /\ (blen bytes <= size_limit v t -> decode t bytes = Ok x).
 Proof. exact roundtrip_outside_known. Qed.
 
 (* encapsulation: every successful serialization (any type, any value) is
@@ -55,27 +63,37 @@ Proof. exact encode_shape. Qed.
    behind the position at which the deserializer stops (what the correspondence oracle checks) *)
 Theorem C09_padding_is_reader_rest : forall (v : ver) (e : endian) (t : ty) (x : val),
   is_aggr t = true -> tgood v t = true -> wt t x = true ->
-  exists bytes p, encode v e t x = Ok bytes /\ decode_end t bytes = Some p /\
-                  nth 3 bytes 0 = blen bytes - 4 - p.
-Proof. exact padding_is_reader_rest. Qed.
+  exists bytes, encode v e t x = Ok bytes /\
+    (blen bytes <= size_limit v t ->
+     decode t bytes = Ok x /\
+     exists p, decode_end t bytes = Some p /\ nth 3 bytes 0 = blen bytes - 4 - p).
+Proof. exact roundtrip_tgood. Qed.
 
-(* the recorded classes are genuine: a well-typed value of a well-formed type in the class
-   that does NOT come back (refutes = wf, wt, class k, encode succeeds, decode (encode x) <> Ok x) *)
-(* the inputs of the two repaired defects (former classes 1 and 2) round-trip now *)
+(* the inputs of the repaired defects round-trip now (former classes 1, 2, 3 -- the last one also
+   with an 8-byte member after the optional one --, the zero-size collection elements of the
+   former class 5), and the former class-6 input is an error instead of a panic *)
 Theorem C09_repaired_inputs_roundtrip :
   (let t := TStruct Final [(mk 0, TPrim PChar8); (mk 1, TPrim PU8)] in
    let x := VData [(0, VP KChar8 233); (1, VP KU8 9)] in
    exists bytes, encode V1 LE t x = Ok bytes /\ decode t bytes = Ok x) /\
   (let t := TStruct Final [(mk 0, TPrim PU64); (mk 1, TPrim PF128)] in
    let x := VData [(0, VP KU64 7); (1, VP KF128 9)] in
-   exists bytes, encode V1 LE t x = Ok bytes /\ decode t bytes = Ok x).
-Proof. exact regression_char8_float128. Qed.
+   exists bytes, encode V1 LE t x = Ok bytes /\ decode t bytes = Ok x) /\
+  (let t := TStruct Final [(mko 0, TPrim PI32); (mk 1, TPrim PI32)] in
+   let x := VData [(0, VP KI32 5); (1, VP KI32 77)] in
+   exists bytes, encode V1 LE t x = Ok bytes /\ decode t bytes = Ok x) /\
+  (let t := TStruct Final [(mko 0, TPrim PU8); (mk 1, TPrim PU64); (mko 2, TPrim PU64)] in
+   let x := VData [(0, VP KU8 1); (1, VP KU64 2)] in
+   exists bytes, encode V1 BE t x = Ok bytes /\ decode t bytes = Ok x) /\
+  (let t := TStruct Final [(mk 0, TPrim PU64); (mk 1, TArr 2 (TStruct Final [(mk 0, TStruct Final [])]))] in
+   let x := VData [(0, VP KU64 0); (1, VSeqData [[(0, VData [])]; [(0, VData [])]])] in
+   exists bytes, encode V2 BE t x = Ok bytes /\ decode t bytes = Ok x) /\
+  encode V1 LE (TStruct Final [(mkM 49152 true false true false [], TPrim PU8)])
+         (VData [(49152, VP KU8 1)]) = Err E_ID.
+Proof. exact regression_repaired. Qed.
 
-Theorem C09_class3_optional_xcdr1_refuted :
-  refutes V1 LE (TStruct Final [(mko 0, TPrim PI32); (mk 1, TPrim PI32)])
-          (VData [(0, VP KI32 5); (1, VP KI32 77)]) 3.
-Proof. exact witness_optional_xcdr1. Qed.
-
+(* the recorded classes are genuine: a well-typed value of a well-formed type in the class that
+   does NOT come back (refutes = wf, wt, class k, and encode fails or decode (encode x) <> Ok x) *)
 (* S3 is false on the unchanged code (D26 and relatives) *)
 Theorem C09_S3_lc5_primitive_sequence_refuted :
   refutes V2 LE (TStruct Mutable [(mk 0, TSeq (TPrim PI32)); (mk 1, TPrim PI32)])
@@ -104,16 +122,23 @@ Theorem C09_S3_union_sequence_xcdr2_refuted :
     (VData [(0, VSeqData [[(0, VP KI32 10); (1, VP KU8 3)]])]) 4.
 Proof. exact witness_union_sequence. Qed.
 
+(* class 5: XCDR1 {@optional E e (present); octet 1}: e is read back as absent *)
+Theorem C09_class5_zero_size_optional_xcdr1_refuted :
+  refutes V1 LE (TStruct Final [(mko 0, TStruct Final []); (mk 1, TPrim PU8)])
+          (VData [(0, VData []); (1, VP KU8 1)]) 5.
+Proof. exact witness_zero_size_optional. Qed.
+
 (* the value comparison used by the correspondence oracle is equality *)
 Theorem C09_oracle_sound : forall a b : val, val_eqb a b = true <-> a = b.
 Proof. exact val_eqb_eq. Qed.
 
-(* non-vacuity: a nested appendable value with an optional member, strings outside ASCII,
-   an array of structs with enum and wstring members satisfies every hypothesis *)
+(* non-vacuity: a nested appendable value with an optional member, strings outside ASCII, an
+   array of structs with enum and wstring members satisfies every hypothesis in both versions *)
 Example C09_nonvacuous :
   is_aggr ex_ty = true /\ wf_ty ex_ty = true /\ stage2 ex_ty = true /\ wt ex_ty ex_val = true /\
-  known_class V2 ex_ty ex_val = 0%N /\
-  (exists bytes, encode V2 BE ex_ty ex_val = Ok bytes /\ decode ex_ty bytes = Ok ex_val).
+  known_class V1 ex_ty ex_val = 0%N /\ known_class V2 ex_ty ex_val = 0%N /\
+  (exists bytes, encode V1 BE ex_ty ex_val = Ok bytes /\ blen bytes <= size_limit V1 ex_ty /\
+                 decode ex_ty bytes = Ok ex_val).
 Proof. exact ex_nonvacuous. Qed.
 
 Print Assumptions C09_roundtrip_S1.
@@ -121,12 +146,12 @@ Print Assumptions C09_S1_classes.
 Print Assumptions C09_roundtrip_S2.
 Print Assumptions C09_roundtrip_all_types_partial.
 Print Assumptions C09_padding_recorded.
+Print Assumptions C09_padding_is_reader_rest.
 Print Assumptions C09_repaired_inputs_roundtrip.
-Print Assumptions C09_class3_optional_xcdr1_refuted.
 Print Assumptions C09_S3_lc5_primitive_sequence_refuted.
 Print Assumptions C09_S3_nested_mutable_xcdr2_refuted.
 Print Assumptions C09_S3_xcdr1_mutable_alignment_refuted.
 Print Assumptions C09_S3_appendable_union_xcdr1_refuted.
 Print Assumptions C09_S3_union_sequence_xcdr2_refuted.
+Print Assumptions C09_class5_zero_size_optional_xcdr1_refuted.
 Print Assumptions C09_oracle_sound.
-Print Assumptions C09_padding_is_reader_rest.
